@@ -902,14 +902,14 @@ func (f *fw) Note(v int) { sink(v + 10) }
 		// counter of a DECLARED unsigned type that starts beyond the signed range
 		Base{Name: "F", ID: "declareduintstart", Src: "func F" + sig + " {\n" + `	type addr uint64
 	n := 0
-	for pos := addr(0x8000000000000000); pos < addr(0x8000000000000000)+addr(b&7)*4096; pos += 4096 {
+	for pos := addr(0x8000000000000000); pos < addr(0x8000000000000000)+addr(b&7)*16; pos += 16 {
 		n++
 	}
 	return n, x
 }
-`, Manual: []ManualEdit{{"the counter of a declared unsigned type starts at 0x8000000000001000 instead of 0x8000000000000000 (one iteration fewer)", "func F" + sig + " {\n" + `	type addr uint64
+`, Manual: []ManualEdit{{"the counter of a declared unsigned type starts at 0x8000000000000010 instead of 0x8000000000000000 (one iteration fewer)", "func F" + sig + " {\n" + `	type addr uint64
 	n := 0
-	for pos := addr(0x8000000000001000); pos < addr(0x8000000000000000)+addr(b&7)*4096; pos += 4096 {
+	for pos := addr(0x8000000000000010); pos < addr(0x8000000000000000)+addr(b&7)*16; pos += 16 {
 		n++
 	}
 	return n, x
